@@ -244,25 +244,28 @@ func TestC10(t *testing.T) {
 				corpus = append(corpus, cf)
 			}
 		}
-		// deterministic: every usable corpus file x standard chunkings, alone and doubled
-		n := int64(0)
-		for _, cf := range corpus {
-			for _, ch := range gen.StandardChunkings() {
-				for _, k := range []int{1, 2} {
-					c := chainCase{Chunk: ch, Sentinel: 7, Corrupt: -1}
-					for i := 0; i < k; i++ {
-						c.Files = append(c.Files, hex.EncodeToString(cf.Data))
-					}
-					n++
-					if msg, ok := check(rec, c); !ok {
-						rec.Fail("corpus", "", cf.Name+": "+msg, c)
+		if hx.FirstShard() {
+			// deterministic: every usable corpus file x standard chunkings, alone and doubled
+			n := int64(0)
+			for _, cf := range corpus {
+				for _, ch := range gen.StandardChunkings() {
+					for _, k := range []int{1, 2} {
+						c := chainCase{Chunk: ch, Sentinel: 7, Corrupt: -1}
+						for i := 0; i < k; i++ {
+							c.Files = append(c.Files, hex.EncodeToString(cf.Data))
+						}
+						n++
+						if msg, ok := check(rec, c); !ok {
+							rec.Fail("corpus", "", cf.Name+": "+msg, c)
+						}
 					}
 				}
 			}
+			rec.Eval("corpus", n)
+			rec.NonTrivialEnum(n)
+			rec.Class("corpus-files-usable", int64(len(corpus)))
+
 		}
-		rec.Eval("corpus", n)
-		rec.NonTrivialEnum(n)
-		rec.Class("corpus-files-usable", int64(len(corpus)))
 
 		hx.RapidCheck(t, rec, "chains", func(rt *rapid.T, fail func(string, string, any)) {
 			d := gen.D{T: rt}
